@@ -25,6 +25,8 @@ def specs(tier):
             out.append(spec("square", "unit", e))
         out.append(spec("opring", "unit", ["-", "A", "B"]))
         out.append(spec("opring", "unit", ["^", "A", "B"]))
+        out.append(spec("hollow", "tinyring", ["|", "A", "B"], lim="1/20"))
+        out.append(spec("hollow", "tinyring", ["^", "A", "B"], lim="1/20"))
         return out
     return out
 
